@@ -33,12 +33,19 @@ def gen_comps(rng, t, n, kind, for_text=False):
                        0x4340000000000001, 0x8000000000000000, 0x0102030405060708]
             if not for_text:
                 special += [0x7ff8000000000000, 0xfff8000000000001, 0x7ff0000000000000]
+    def rand_pattern():
+        # floating text data must be finite (NaN payloads and infinities do not survive a decimal text file)
+        if ISFLOAT[t] and for_text:
+            if w == 4:
+                return (rng.getrandbits(1) << 31) | (rng.randint(1, 254) << 23) | rng.getrandbits(23)
+            return (rng.getrandbits(1) << 63) | (rng.randint(1, 2046) << 52) | rng.getrandbits(52)
+        return rng.getrandbits(bits)
     run = None
     for i in range(n * NCOMP[t]):
         if kind == "runs":
             # equal neighbours (SIE run structure); a complex sample repeats as a pair
             if run is None or (i % NCOMP[t] == 0 and rng.random() < 0.35):
-                run = [rng.choice(special + [rng.getrandbits(bits)]) for _ in range(NCOMP[t])]
+                run = [rng.choice(special + [rand_pattern()]) for _ in range(NCOMP[t])]
                 if rng.random() < 0.3:
                     run = [0] * NCOMP[t]
             out.append(run[i % NCOMP[t]])
